@@ -89,12 +89,12 @@ def run_case(c: Case):
         out = r.stdout + r.stderr
         if c.kind == "break":
             if r.returncode != 1:
-                return c, "MISSED", f"exit {r.returncode}: " + out[-400:]
+                return c, "MISSED", f"exit {r.returncode}: " + "\n".join(l for l in out.splitlines() if not l.startswith("KNOWN-FINDING"))[-600:]
             if c.expect and not re.search(c.expect, out):
                 return c, "WRONG-REPORT", f"expected /{c.expect}/ in report: " + out[-600:]
             return c, "ok", ""
         if r.returncode != 0:
-            return c, "FALSE-ALARM", f"exit {r.returncode}: " + out[-600:]
+            return c, "FALSE-ALARM", f"exit {r.returncode}: " + "\n".join(l for l in out.splitlines() if not l.startswith("KNOWN-FINDING"))[-900:]
         return c, "ok", ""
     finally:
         shutil.rmtree(tmp, ignore_errors=True)
